@@ -30,6 +30,9 @@ var solvers = []solverSpec{
 	}},
 }
 
+// wallFactor: wall-clock backstop as a multiple of the CPU-time limit.
+const wallFactor = 8
+
 type solveOut struct {
 	solver string
 	answer string // sat | unsat | unknown | timeout | error
@@ -38,10 +41,14 @@ type solveOut struct {
 }
 
 func runSolver(ctx context.Context, sp solverSpec, file string, timeoutS int) solveOut {
-	args := sp.args(file, timeoutS)
-	cctx, cancel := context.WithTimeout(ctx, time.Duration(timeoutS+2)*time.Second)
+	// The time limit is CPU time of the solver process (ulimit -t), so that an
+	// obligation that discharges on an idle machine also discharges on a loaded
+	// one; the solvers' own wall-clock limits are only a generous backstop.
+	args := sp.args(file, timeoutS*wallFactor)
+	cctx, cancel := context.WithTimeout(ctx, time.Duration(timeoutS*wallFactor+5)*time.Second)
 	defer cancel()
-	cmd := exec.CommandContext(cctx, args[0], args[1:]...)
+	sh := append([]string{"-c", fmt.Sprintf("ulimit -t %d; exec \"$@\"", timeoutS+1), "sh"}, args...)
+	cmd := exec.CommandContext(cctx, "sh", sh...)
 	var buf bytes.Buffer
 	cmd.Stdout = &buf
 	cmd.Stderr = &buf
@@ -70,6 +77,12 @@ func runSolver(ctx context.Context, sp solverSpec, file string, timeoutS int) so
 				continue
 			}
 			hasErr = true
+		}
+	}
+	if err != nil && first != "sat" && first != "unsat" {
+		if ee, ok := err.(*exec.ExitError); ok && strings.HasPrefix(ee.Error(), "signal:") {
+			hasErr = false
+			first = "timeout"
 		}
 	}
 	if hasErr && (strings.Contains(out, "interrupted by timeout") || strings.Contains(out, "timed out") || cctx.Err() != nil) {
